@@ -97,6 +97,9 @@ func verifCheckParse(src string, spans bool) {
 	v := &verifVisitor{seen: map[ast.Node]int{}, srcLen: len(src)}
 	k2, _ := verifCatch(func() { ast.Walk(v, prog) })
 	verifAssert(k2 == verifNormal, "ast.Walk does not panic")
+	if err != nil {
+		return // the remaining claims are about accepted trees
+	}
 	verifAssert(!v.nilNode, "ast.Walk never hands a nil node to the visitor")
 	verifAssert(!v.unbal && len(v.stack) == 0, "Enter/Exit balanced")
 	once := true
@@ -106,7 +109,7 @@ func verifCheckParse(src string, spans bool) {
 		}
 	}
 	verifAssert(once, "each node entered exactly once")
-	if err == nil && spans {
+	if spans {
 		verifAssert(!v.idxPanic, "Idx0/Idx1 do not panic on an accepted tree")
 		verifAssert(!v.badSpan, "node span within the file")
 		verifAssert(!v.outside, "node span within its parent's span")
@@ -117,4 +120,44 @@ func VerifH_C04_parse_bytes() {
 	n := verifChoose(verifParam("maxlen", 2) + 1)
 	src := verifNondetString(n)
 	verifCheckParse(src, true)
+}
+
+// verifAlphabet: the bytes allowed in template holes (a table lookup, so the
+// restriction is one term, not a fork per byte).
+var verifAlphabet = func() (t [256]bool) {
+	for _, c := range []byte(" \n;:,.(){}[]a1'\"/=+-!?<&|") {
+		t[c] = true
+	}
+	return
+}()
+
+var verifTemplates = []struct{ pre, suf string }{
+	{"for(", ");"},
+	{"switch(a){case 1", "}"},
+	{"(function", "{})"},
+	{"try{}finally", ""},
+	{"try{}catch(a)", ""},
+	{"a=", ";"},
+	{"if(a)", ""},
+	{"var a", ""},
+	{"({", "})"},
+	{"a", "b"},
+	{"do;while(a)", ""},
+	{"a:", "break a"},
+	{"x=[", "]"},
+	{"new a", ""},
+	{"function f(", "){}"},
+	{"with(a)", ""},
+}
+
+// Statement templates with symbolic holes: gets the byte-level exploration
+// past the length bound of VerifH_C04_parse_bytes.
+func VerifH_C04_parse_templates() {
+	t := verifTemplates[verifChoose(len(verifTemplates))]
+	n := verifChoose(verifParam("holes", 2) + 1)
+	hole := verifNondetString(n)
+	for i := 0; i < n; i++ {
+		verifAssume(verifAlphabet[hole[i]])
+	}
+	verifCheckParse(t.pre+hole+t.suf, true)
 }
